@@ -1262,6 +1262,6 @@ func main() {
 		}
 		addDecide(kind, fi, ri)
 	}
-	out.Extra["rule"] = "cases = (a) decide: generated schema.Field (data type from a 24-word vocabulary with sizes/precisions/case/space variants, primary key, size, precision, not null, default value and DefaultValueInterface, time/bool/other, comment, unique, IgnoreMigration) x generated reported column type (type name related or unrelated, aliases, length/precision/nullable/default/comment/unique each with an ok flag) fed to the real Migrator.MigrateColumn with a recording migrator; (b) round: 15 hand-written model pairs (incl. composite / partial / unique / sorted index options placed on any member field, type: tags carrying their length, fields excluded from migration whose column does not exist, mixed-case column: tags and many2many over unique non-primary references with a link test), the relation pairs also under DisableForeignKeyConstraintWhenMigrating / IgnoreRelationshipsWhenMigrating / both (v1, v2 = v1 + fields/indexes/unique index/check constraints; sizes, not null, literal/bool/null defaults, times, bytes, embedded prefix, renamed column, json serializer, unique, check, composite key and index, foreign key) on real SQLite through the recording driver, with 0 and 3 rows; (c) reorder: ReorderModels on random subsets of 7 models with chain/diamond foreign keys. distinct = distinct input shapes; non-trivial = decision is alter or a unique change / rows present / more than one model"
+	out.Extra["rule"] = "cases = (a) decide: generated schema.Field (data type from a 24-word vocabulary with sizes/precisions/case/space variants, primary key, size, precision, not null, default value and DefaultValueInterface, time/bool/other, comment, unique, IgnoreMigration) x generated reported column type (type name related or unrelated, aliases, length/precision/nullable/default/comment/unique each with an ok flag) fed to the real Migrator.MigrateColumn with a recording migrator; (b) round: 16 hand-written model pairs (incl. composite / partial / unique / sorted index options placed on any member field, type: tags carrying their length, fields excluded from migration whose column does not exist, mixed-case column: tags and many2many over unique non-primary references with a link test), the relation pairs also under DisableForeignKeyConstraintWhenMigrating / IgnoreRelationshipsWhenMigrating / both (v1, v2 = v1 + fields/indexes/unique index/check constraints; sizes, not null, literal/bool/null defaults, times, bytes, embedded prefix, renamed column, json serializer, unique, check, composite key and index, foreign key) on real SQLite through the recording driver, with 0 and 3 rows; (c) reorder: ReorderModels on random subsets of 7 models with chain/diamond foreign keys. distinct = distinct input shapes; non-trivial = decision is alter or a unique change / rows present / more than one model"
 	lib.Must(out.Flush())
 }
